@@ -251,6 +251,7 @@ def run_instance(modname, hname, params, opts, conn=None):
                 with env:
                     harness(env, **params)
             except xa.PathAbort:
+                todo.extend(env.alts)      # alternatives discovered before the abort are still to be explored
                 continue
             res["build_s"] += time.time() - tb
             todo.extend(env.alts)
